@@ -87,7 +87,7 @@ def gen_cases(ctx):
                 srcs = [[[d, dist] for dist, d in c] for c in combo]
                 yield dict(stream="solver", srcs=srcs, R=2, ndest=3, family="exh3",
                            strategies=["recursive", "nonrecursive"] if ns == 3 else STRATS)
-    n = ctx.n(1500, 60000)
+    n = ctx.n(1500, 30000)
     for i in range(n):
         rng = ctx.rng("solver", i)
         g = gen_graph(rng, big=(i % 10 == 9))
@@ -95,7 +95,7 @@ def gen_cases(ctx):
         g["shuffle"] = rng.randint(0, 10 ** 6)
         yield g
     from . import linkcommon
-    m = ctx.n(300, 5000)
+    m = ctx.n(300, 2500)
     for i in range(m):
         rng = ctx.rng("step", i)
         mv = linkcommon.gen_movie(rng, thorough=ctx.thorough, plant_history=True)
